@@ -71,11 +71,11 @@ theorem startLookups_spec (cfg : Cfg) (st : St) (rs : List Req) :
 
 /-! ### `_send_requests` -/
 
-theorem addToGroups_tps_nodup (gs : List Payload) (tp : TP) (sid : Sid) (h : (gs.map (·.tp)).Nodup) :
-    ((addToGroups gs tp sid).map (·.tp)).Nodup := by
+theorem addToGroups_tps_nodup (gs : List Payload) (tp : TP) (sid : Sid) (ms : List Msg) (h : (gs.map (·.tp)).Nodup) :
+    ((addToGroups gs tp sid ms).map (·.tp)).Nodup := by
   simp only [addToGroups]
   split
-  · have : (gs.map (fun g => if g.tp = tp then { g with sids := g.sids ++ [sid] } else g)).map (·.tp) = gs.map (·.tp) := by
+  · have : (gs.map (fun g => if g.tp = tp then { g with sids := g.sids ++ [sid], msgs := g.msgs ++ ms } else g)).map (·.tp) = gs.map (·.tp) := by
       rw [List.map_map]; apply List.map_congr_left; intro g _; simp only [Function.comp]; split <;> rfl
     rw [this]; exact h
   · rename_i hn
@@ -97,7 +97,7 @@ theorem procResults_spec (ls : List Lookup) (out : List Sid) (gs : List Payload)
     simp only [procResults]
     split
     · split
-      · exact ih _ _ (addToGroups_tps_nodup gs _ _ h)
+      · exact ih _ _ (addToGroups_tps_nodup gs _ _ _ h)
       · obtain ⟨h1, h2, h3⟩ := ih (out.erase l.req.sid) gs h
         refine ⟨h1, ?_, by rw [show ∀ (x : Ob) (l : List Ob), x :: l = [x] ++ l from fun _ _ => rfl, shapeOf_append, h3]; simp [shapeOf, isShape]⟩
         intro s o hm
@@ -266,16 +266,24 @@ def RespFires (cfg : Cfg) (b : Batch) (r : ProdRes) (obs : List Ob) : Prop :=
     (o = .okNone ∧ cfg.acks = producerAckNotRequired ∧ s ∈ b.allSids) ∨
     (∃ k, o = .err k)
 
-/-- the batch after the acknowledged payloads of `r` were popped -/
-def Batch.popAcked (b : Batch) (rs : List Resp) : Batch :=
-  { b with live := b.live.filter (fun tp => !(rs.filter (·.error = 0)).any (·.tp = tp)) }
+/-- the batch with only the payloads `tps` still listed for a retry -/
+def Batch.keep (b : Batch) (tps : List TP) : Batch :=
+  { b with live := b.live.filter (fun tp => decide (tp ∈ tps)) }
+
+theorem keep_eq (b : Batch) (failed : List FailedP) :
+    ({ b with live := b.live.filter (fun tp => failed.any (·.tp = tp)) } : Batch) = b.keep (failed.map (·.tp)) := by
+  simp only [Batch.keep]
+  congr 1
+  apply List.filter_congr
+  intro tp _
+  simp only [List.any_eq, List.mem_map, decide_eq_true_eq]
 
 /-- how `_handle_send_response` ends: resolved, or waiting on a retry timer -/
 inductive Handled (cfg : Cfg) (st : St) (b : Batch) (r : ProdRes) (st' : St) (obs : List Ob) : Bool → Prop
   | resolved : st'.phase = st.phase → st'.attempts = st.attempts → st'.interval = st.interval →
       st'.nextTid = st.nextTid → shapeOf obs = [] → Handled cfg st b r st' obs true
-  | retry : st'.phase = .retryWait st.nextTid (b.popAcked (respsOf r)) (failedTps (b.popAcked (respsOf r)).live r) →
-      failedTps (b.popAcked (respsOf r)).live r ≠ [] →
+  | retry : st'.phase = .retryWait st.nextTid (b.keep (failedTps b.live r)) (failedTps b.live r) →
+      failedTps b.live r ≠ [] →
       st'.attempts = st.attempts → st.attempts < cfg.maxAttempts → st.stopping = false →
       st'.interval = st.interval * producerRetryFactor → st'.nextTid = st.nextTid + 1 →
       shapeOf obs = [.setTimer st.nextTid st.interval] → Handled cfg st b r st' obs false
@@ -333,7 +341,8 @@ theorem handleResults_spec (cfg : Cfg) (st : St) (b : Batch) (rs : List Resp) (f
       (handleResults cfg st b rs fs).1.attempts = st.attempts ∧ (handleResults cfg st b rs fs).1.interval = st.interval ∧
       (handleResults cfg st b rs fs).1.nextTid = st.nextTid ∧ shapeOf (handleResults cfg st b rs fs).2.1 = []) ∨
      ((handleResults cfg st b rs fs).2.2 = false ∧
-      (handleResults cfg st b rs fs).1.phase = .retryWait st.nextTid (b.popAcked rs)
+      (handleResults cfg st b rs fs).1.phase = .retryWait st.nextTid
+        (b.keep (fs.map (·.tp) ++ (rs.filter (·.error ≠ 0)).map (·.tp)))
         (fs.map (·.tp) ++ (rs.filter (·.error ≠ 0)).map (·.tp)) ∧
       (fs.map (·.tp) ++ (rs.filter (·.error ≠ 0)).map (·.tp)) ≠ [] ∧
       (handleResults cfg st b rs fs).1.attempts = st.attempts ∧ st.attempts < cfg.maxAttempts ∧ st.stopping = false ∧
@@ -357,7 +366,7 @@ theorem handleResults_spec (cfg : Cfg) (st : St) (b : Batch) (rs : List Resp) (f
       intro hc; rw [hc] at hf; simp at hf
     obtain ⟨c1, c2⟩ := checkRetry_spec cfg
       { st with outstanding := (deliverMany st.outstanding ((rs.filter (·.error = 0)).map (fun r => (b.sidsOf r.tp, Outcome.ok r)))).1 }
-      (b.popAcked rs) _ hne
+      { b with live := b.live.filter (fun tp => (fs ++ (rs.filter (·.error ≠ 0)).map (fun r => (⟨r.tp, .broker r.error, false⟩ : FailedP))).any (·.tp = tp)) } _ hne
     dsimp only
     refine ⟨?_, ?_⟩
     · intro s o h
@@ -365,11 +374,12 @@ theorem handleResults_spec (cfg : Cfg) (st : St) (b : Batch) (rs : List Resp) (f
       · exact Or.inl (good s o h)
       · rcases c1 s o h with hk | ⟨h1, h2, h3⟩
         · exact Or.inr (Or.inl hk)
-        · exact Or.inr (Or.inr ⟨h1, h2, by simpa [Batch.popAcked, Batch.allSids] using h3⟩)
+        · exact Or.inr (Or.inr ⟨h1, h2, by simpa [Batch.allSids] using h3⟩)
     · rcases c2 with ⟨d1, d2, d3, d4, d5, d6⟩ | ⟨d1, d2, d3, d4, d5, d6, d7, d8⟩
       · exact Or.inl ⟨d1, d2, d3, d4, d5, by rw [shapeOf_append, deliverMany_shape]; exact d6⟩
       · refine Or.inr ⟨d1, ?_, ?_, d3, d4, d5, d6, d7, by rw [shapeOf_append, deliverMany_shape]; exact d8⟩
         · refine Eq.trans d2 ?_
+          rw [keep_eq]
           simp [List.map_append, List.map_map, Function.comp_def]
         · intro hc
           apply hne
@@ -421,7 +431,7 @@ theorem handleSendResponse_spec (cfg : Cfg) (st : St) (b : Batch) (r : ProdRes) 
     · rcases h2 with ⟨d1, d2, d3, d4, d5, d6⟩ | ⟨d1, d2, d3, d4, d5, d6, d7, d8, d9⟩
       · rw [d1]; exact .resolved d2 d3 d4 d5 d6
       · rw [d1]
-        exact .retry (by rw [d2, hft, hr]) (by rw [hft]; exact d3) d4 d5 d6 d7 d8 d9
+        exact .retry (by rw [d2, hft]) (by rw [hft]; exact d3) d4 d5 d6 d7 d8 d9
   cases r with
   | none =>
     simp only [handleSendResponse]
@@ -457,19 +467,15 @@ theorem handleSendResponse_spec (cfg : Cfg) (st : St) (b : Batch) (r : ProdRes) 
         · cases e2
         · exact Or.inr (Or.inr h)
         · exact Or.inr (Or.inl h)
-      · have hp : b.popAcked (respsOf (.err k)) = b := by
-          cases b; simp [Batch.popAcked, respsOf]
-        rcases h2 with ⟨d1, d2, d3, d4, d5, d6⟩ | ⟨d1, d2, d3, d4, d5, d6, d7, d8, d9⟩
+      · rcases h2 with ⟨d1, d2, d3, d4, d5, d6⟩ | ⟨d1, d2, d3, d4, d5, d6, d7, d8, d9⟩
         · rw [d1]; exact .resolved d2 d3 d4 d5 d6
         · rw [d1]
           have e : (b.live.map (fun tp => (⟨tp, k, true⟩ : FailedP))).map (·.tp) ++
               (([] : List Resp).filter (·.error ≠ 0)).map (·.tp) = b.live := by simp [List.map_map, Function.comp_def]
           rw [e] at d2 d3
-          have hp2 : b.popAcked [] = b := by cases b; simp [Batch.popAcked]
-          rw [hp2] at d2
           refine .retry ?_ ?_ d4 d5 d6 d7 d8 d9
-          · rw [hp]; simpa [failedTps] using d2
-          · rw [hp]; simpa [failedTps] using d3
+          · simpa [failedTps] using d2
+          · simpa [failedTps] using d3
     · apply all
       · intro h; cases h
       · intro k'; simp
